@@ -116,8 +116,7 @@ class GetInitialState(Contract):
     properties = ["C10", "C11"]
 
     def pre(self, s, a):
-        f = dict(wf_world(s))
-        f.update(wf_class(s))
+        f = dict(wf_world(s))  # WF(cls) is not needed by the body: only the class's initial state must be mapped
         f["self-is-machine"] = a.self.e == W.SM
         ini = s.sel("StateMachine.initial_state", W.SM)
         f["class-initial-state-mapped"] = z3.And(valid_obj(s, ini), smap_has(s, s.sel("State.value", ini)),
